@@ -195,7 +195,10 @@ def stress(exe, tsan, rnd, nthreads, nops, verdict, label, perms=False):
                  # at every call and keeps it: afterwards they are all still open, and no descriptor that was not open was closed
                  # (a descriptor released twice closes what ANOTHER thread opened in between)
                  "cbreset", "cbrejectpath %s" % hx("%s/etc/%s.%s.d/b.%s" % (tr, name, sfx, sfx)), "cbopenfd 1",
-                 "readdirscb 47 %s %s %s %s %s %s" % (hx(tr + "/usr/etc"), hx(tr + "/etc"), hx(name), hx(sfx), hx(dl), hx(cm)), "fdcheck", "cbopenfd 0", "free 47", "cbreset"]
+                 "readdirscb 47 %s %s %s %s %s %s" % (hx(tr + "/usr/etc"), hx(tr + "/etc"), hx(name), hx(sfx), hx(dl), hx(cm)), "fdcheck", "cbopenfd 0", "free 47", "cbreset",
+                 # a write that fails half way (more text than one stdio buffer, into a device that takes nothing): it answers with
+                 # a code and leaves no descriptor behind (the process' descriptors are counted before and after all threads)
+                 "newkf 48 x3d x23", "set String 48 - %s %s" % (hx("big"), hx("v" * 9000)), "write 48 %s %s" % (hx(tr), hx("full." + sfx)), "free 48"]
         for _ in range(3):
             pos = rnd.randrange(1, max(2, len(h.script) - len(h.live) - 1))
             h.script[pos:pos] = reads
@@ -227,6 +230,7 @@ def stress(exe, tsan, rnd, nthreads, nops, verdict, label, perms=False):
             lines.append("file %s %s" % (hx("%s/usr/etc/%s.d/q.%s" % (tr, name, sfx)), hx("Q%sq%d\nP%susr\n" % (dl, t, dl))))
             lines.append("symlink %s %s" % (hx(tr + "/no/such/target"), hx("%s/dangling.%s" % (tr, sfx))))
             lines.append("file %s %s" % (hx("%s/bad.%s" % (tr, sfx)), hx("A%s1\n[broken\nB%s2\n" % (dl, dl))))
+            lines.append("symlink %s %s" % (hx("/dev/full"), hx("%s/full.%s" % (tr, sfx))))
         files = []
         for t, h in enumerate(hists):
             sf = "%s/p%d.script" % (R, t)
@@ -234,11 +238,13 @@ def stress(exe, tsan, rnd, nthreads, nops, verdict, label, perms=False):
             files.append(sf)
         if perms:
             lines.append("requireperms 444 555")
+        lines.append("fdcount")
         if mode == "parallel":
             lines.append("threads %d x %s" % (nthreads, " ".join(hx(f) for f in files)))
         else:
             for f in files:
                 lines.append("threads 1 x %s" % hx(f))
+        lines.append("fdcount")
         if perms:
             lines.append("resetsec")
         for f in files:
@@ -252,6 +258,10 @@ def stress(exe, tsan, rnd, nthreads, nops, verdict, label, perms=False):
             verdict.violation("C18:stress:crash:%s" % mode, {"kind": "stress", "threads": nthreads, "crash": (o or {}).get("crash")}, "%s run of %d threads crashed\n%s" % (mode, nthreads, (o or {}).get("crash", "")[:900]))
             return 0, 0
         outs[mode] = [[json.loads(l) for l in (c["data"] or "").splitlines() if l.startswith("{")] for c in o["ev"] if c["op"] == "cat"]
+        fdn = [e["n"] for e in o["ev"] if e["op"] == "fdcount"]
+        if len(fdn) == 2 and fdn[1] > fdn[0]:
+            verdict.violation("C18:stress:descriptors-left", {"kind": "stress", "threads": nthreads, "mode": mode, "before": fdn[0], "after": fdn[1]},
+                              "%s run of %d threads: %d descriptors are open afterwards, %d before (every object was released; a failing call must not keep a file open - the descriptors of a process are shared by its threads)" % (mode, nthreads, fdn[1], fdn[0]))
     ok = 0
     ncalls = 0
     events = []
